@@ -38,10 +38,18 @@ def _analyse(repo, pid):
     try:
         ctx = Ctx(repo, 'quick')
         chk = Check(pid, 'quick', ctx.prog)
-        importlib.import_module(f'pkstatic.rules.{pid.lower()}').run(chk, ctx)
-        ctx.definite_assignment(chk)
         from .report import load_known
         known, _ = load_known()
+        try:
+            importlib.import_module(f'pkstatic.rules.{pid.lower()}').run(chk, ctx)
+            ctx.definite_assignment(chk)
+        except AnalysisError:
+            try:
+                ctx.definite_assignment(chk)
+            except AnalysisError:
+                pass
+            if not any(not o.ok and (pid, o.rule, o.construct) not in known for o in chk.obs):
+                raise
         fails = [o.rule for o in chk.obs if not o.ok and (pid, o.rule, o.construct) not in known]
         if fails:
             return 1, sorted(set(fails))
